@@ -145,6 +145,7 @@ class Model:
         for q, f in self.funcs.items():
             self._by_name.setdefault(f.name, []).append(q)
         self.shared_default_slots: Dict[str, List[Tuple[str, str, int]]] = {}
+        self._synthesise_accessors()
         self._check_reflection_inventory()
 
     # ------------------------------------------------------------------ defs
@@ -442,6 +443,88 @@ class Model:
         if qual not in self.funcs:
             raise AnalysisError(f"anchor function {qual} not found")
         return self.funcs[qual]
+
+    def _synthesise_accessors(self) -> None:
+        """Generated accessors built by a FACTORY (`setattr(cl, k, _factory(k, "df"))`): the canonical nested functions
+        `<deco>.<locals>.gen_props.<locals>.getter / setter` are synthesised by specialising the factory's nested getter / setter
+        with the constant arguments of the call — the key parameter becomes the defaulted parameter `k_` of the canonical form,
+        constant parameters are substituted, `x if <const> else y` and `getattr(o, "<const>")` are folded.  Every analysis that
+        reads the accessor bodies (effect summaries, typer, C12.R3, C16.R11) then sees the same functions as for the in-line form."""
+        import copy
+        prop = "reamber.base.Property"
+        if prop not in self.mods:
+            return
+        tree = self.mods[prop].tree
+        for deco in ("item_props", "list_props", "map_props", "stack_props"):
+            gp = f"{prop}.{deco}.<locals>.gen_props"
+            if gp not in self.funcs:
+                continue
+            for which in ("getter", "setter"):
+                q = f"{gp}.<locals>.{which}"
+                if q in self.funcs:
+                    continue
+                call = kvar = None
+                for n in ast.walk(self.funcs[gp].node):
+                    if isinstance(n, ast.For):
+                        for x in n.body:
+                            c = x.value if isinstance(x, ast.Expr) else None
+                            if isinstance(c, ast.Call) and isinstance(c.func, ast.Name) and c.func.id == "setattr" and len(c.args) == 3 and \
+                                    isinstance(c.args[2], ast.Call) and isinstance(c.args[2].func, ast.Name):
+                                call = c.args[2]
+                                kvar = [y.id for y in ast.walk(n.target) if isinstance(y, ast.Name)]
+                if call is None:
+                    continue
+                fdef = [m_ for m_ in tree.body if isinstance(m_, ast.FunctionDef) and m_.name == call.func.id]
+                if len(fdef) != 1:
+                    continue
+                inner = [m_ for m_ in fdef[0].body if isinstance(m_, ast.FunctionDef) and m_.name == which]
+                if len(inner) != 1:
+                    continue
+                fps = [a.arg for a in fdef[0].args.args]
+                dflt = dict(zip(fps[::-1], fdef[0].args.defaults[::-1]))
+                bound = {}
+                for i, a in enumerate(call.args):
+                    if i < len(fps):
+                        bound[fps[i]] = a
+                for k in call.keywords:
+                    if k.arg:
+                        bound[k.arg] = k.value
+                for p_ in fps:
+                    bound.setdefault(p_, dflt.get(p_))
+                keyparam = next((p_ for p_, v in bound.items() if isinstance(v, ast.Name) and v.id in (kvar or [])), None)
+                if keyparam is None or any(v is None for v in bound.values()):
+                    continue
+                consts = {p_: v for p_, v in bound.items() if p_ != keyparam and isinstance(v, ast.Constant)}
+                if len(consts) != len(bound) - 1:
+                    continue
+                node = copy.deepcopy(inner[0])
+
+                class Spec(ast.NodeTransformer):
+                    def visit_Name(self, n):
+                        if n.id == keyparam:
+                            return ast.copy_location(ast.Name(id="k_", ctx=n.ctx), n)
+                        if n.id in consts and isinstance(n.ctx, ast.Load):
+                            return ast.copy_location(copy.deepcopy(consts[n.id]), n)
+                        return n
+
+                    def visit_IfExp(self, n):
+                        n = self.generic_visit(n)
+                        if isinstance(n.test, ast.Constant):
+                            return n.body if n.test.value else n.orelse
+                        return n
+
+                    def visit_Call(self, n):
+                        n = self.generic_visit(n)
+                        if isinstance(n.func, ast.Name) and n.func.id == "getattr" and len(n.args) == 2 and isinstance(n.args[1], ast.Constant) and \
+                                isinstance(n.args[1].value, str):
+                            return ast.copy_location(ast.Attribute(value=n.args[0], attr=n.args[1].value, ctx=ast.Load()), n)
+                        return n
+                node = Spec().visit(node)
+                node.args.args.append(ast.arg(arg="k_"))
+                node.args.defaults.append(ast.Name(id=bound[keyparam].id, ctx=ast.Load()))
+                ast.fix_missing_locations(node)
+                self.funcs[q] = Fn(q, prop, node, self.funcs[gp].cls, gp, frozenset())
+                self._by_name.setdefault(which, []).append(q)
 
     def gen_accessor(self, deco: str, which: str) -> Optional[str]:
         """qualified name of the getter / setter body that the property-generating decorator `deco` of reamber.base.Property
@@ -887,11 +970,39 @@ class Model:
                         self.reflection_sites.append((m.rel, n.lineno, hit))
                         if (m.name, topname) in self.REFLECTION_ALLOWED:
                             continue
+                        if self._helper_of_allowed(m, topname):
+                            continue     # a private helper of an allowed construct, used only by it (the same reason applies)
                         if hit in ("getattr", "setattr") and self._finite_attr_name(m, top, n):
                             continue     # the attribute name ranges over a literal table: a finite set of ordinary accesses
                         unknown.append(f"{m.rel}:{n.lineno} {hit} in {topname}")
                         self.reflection_unknown_where.append((m.name, n.lineno))
         self.reflection_unknown = unknown
+
+    def _helper_of_allowed(self, m, topname: str) -> bool:
+        """a private module-level function of a module with an allowed construct, referenced only from inside that construct
+        (or from other such helpers): extracting part of `cast()` or of a property decorator into `_helper` moves the reflective
+        call, not what it does"""
+        if not topname.startswith("_") or topname.startswith("__"):
+            return False
+        allowed_tops = {t for (mod, t) in self.REFLECTION_ALLOWED if mod == m.name}
+        if not allowed_tops:
+            return False
+        users = set()
+        for top in m.tree.body:
+            tn = getattr(top, "name", None)
+            if tn == topname:
+                continue
+            if any(isinstance(n, ast.Name) and n.id == topname for n in ast.walk(top)):
+                users.add(tn or "<module>")
+        # other modules must not import it
+        for om in self.mods.values():
+            if om is m:
+                continue
+            d = self.defs.get(om.name, {})
+            for k, v in d.items():
+                if v[0] == "import" and v[1] == (m.name, topname):
+                    return False
+        return bool(users) and all(u in allowed_tops or (u and u.startswith("_") and self._helper_of_allowed(m, u)) for u in users)
 
     def _finite_attr_name(self, m, top, call: ast.Call) -> bool:
         """getattr / setattr whose name argument is a string constant, an element of a literal table (`TABLE[k]`), or a loop
